@@ -104,7 +104,9 @@ class Flavour:
             return Item(label)
         if n == "dictwrap":
             shared = self.pool.get(label)
-            d = shared._dict if shared is not None else {"name": label}
+            # labels sharing the first letter get dicts of EQUAL CONTENT that are distinct objects: DictWrapper is
+            # documented to compare (and hash) by the identity of the wrapped dict, not by its content
+            d = shared._dict if shared is not None else {"name": label[:1]}
             return DictWrapper(d)
         if n in ("obj_cb", "obj_sub"):
             return Person("g-" + label, label)
